@@ -362,7 +362,8 @@ type chain struct {
 	powerAt   map[int64]map[string]int64 // height -> addr -> power in sets[height]
 	committed [][]byte                   // txs of committed blocks, oldest first
 	blockTxs  [][]byte
-	applyErr  string // why Tendermint would have refused the last batch ("" = fine)
+	blockCode []uint32 // DeliverTx codes of blockTxs
+	applyErr  string   // why Tendermint would have refused the last batch ("" = fine)
 	emptied   bool
 	lastView  *chainView
 	c         *Case
@@ -531,7 +532,7 @@ func (ch *chain) run(o chainOracle) *Violation {
 		if v := o.after(ch, ci); v != nil || ci.Panic != nil {
 			return v
 		}
-		ch.blockTxs = nil
+		ch.blockTxs, ch.blockCode = nil, nil
 		for ti := range b.Txs {
 			tx := &b.Txs[ti]
 			bt := ch.buildTx(tx)
@@ -542,9 +543,14 @@ func (ch *chain) run(o chainOracle) *Violation {
 				mode = ""
 			}
 			switch mode {
-			case "check":
+			case "check", "recheck":
+				// (a re-check is what the mempool sends for transactions still pending after a commit; same contract)
 				ci.Kind = "check"
-				ci.Panic = safeCall(func() { ci.Check = ch.app.CheckTx(abci.RequestCheckTx{Tx: bt.Bytes}) })
+				typ := abci.CheckTxType_New
+				if mode == "recheck" {
+					typ = abci.CheckTxType_Recheck
+				}
+				ci.Panic = safeCall(func() { ci.Check = ch.app.CheckTx(abci.RequestCheckTx{Tx: bt.Bytes, Type: typ}) })
 			case "simulate":
 				ci.Kind = "simulate"
 				ci.Panic = safeCall(func() { ci.Query = ch.app.Query(abci.RequestQuery{Path: "/app/simulate", Data: bt.Bytes}) })
@@ -552,6 +558,7 @@ func (ch *chain) run(o chainOracle) *Violation {
 				ci.Kind = "tx"
 				ci.Panic = safeCall(func() { ci.Deliver = ch.app.DeliverTx(abci.RequestDeliverTx{Tx: bt.Bytes}) })
 				ch.blockTxs = append(ch.blockTxs, bt.Bytes)
+				ch.blockCode = append(ch.blockCode, ci.Deliver.Code)
 			}
 			if ci.Panic == nil {
 				ci.After = ch.viewAfter()
@@ -613,8 +620,8 @@ func (ch *chain) run(o chainOracle) *Violation {
 		if ci.Panic == nil {
 			ci.After = ch.viewAfter()
 			ch.height = h
-			for _, txb := range ch.blockTxs {
-				ch.index.add(tmtypes.Tx(txb).Hash())
+			for i, txb := range ch.blockTxs {
+				ch.index.add(tmtypes.Tx(txb).Hash(), ch.blockCode[i])
 				ch.committed = append(ch.committed, txb)
 			}
 		}
